@@ -483,7 +483,19 @@ def _read_request(
         request_shm = owned_shm = attach_shm(custom_metadata)
     try:
         if request_shm is not None:
-            batch, _, release_shm = resolve_shm_batch(batch, custom_metadata, request_shm)
+            try:
+                batch, _, release_shm = resolve_shm_batch(batch, custom_metadata, request_shm)
+            except (pa.ArrowInvalid, ValueError, AssertionError) as exc:
+                # The pointer's offset/length are the peer's claim.  Bytes in
+                # the segment that do not decode are a bad *request*; the pipe
+                # itself is intact (the request stream was drained above), so
+                # this must not be mistaken for broken framing, which ends the
+                # connection.
+                raise RpcError(
+                    "ProtocolError",
+                    f"Cannot resolve the shared-memory pointer of the request batch: {exc}",
+                    "",
+                ) from exc
         if len(batch.schema) > 0 and batch.num_rows != 1:
             raise RpcError(
                 "ProtocolError",
